@@ -5,6 +5,7 @@ import (
 	"go/ast"
 	"go/constant"
 	"go/token"
+	"go/types"
 	"sort"
 	"strings"
 
@@ -177,6 +178,11 @@ func (e *symEnv) assign(lhs ast.Expr, tok token.Token, rhs ast.Expr) {
 }
 
 func checkC14(c *Ctx) {
+	c14Linform(c)
+	c14BufferSame(c, "buffer.same")
+}
+
+func c14Linform(c *Ctx) {
 	c.Rule("R1 linform: tokenAccum.emitToken, executed symbolically over its syntax: Token.Bytes = f.Bytes[startOfs:endOfs]; Range.Start.Byte = startOfs + f.StartByte; Range.End.Byte = endOfs + f.StartByte; Range.Start.Line = f.Pos.Line; Range.Start.Column = f.Pos.Column + (startOfs + f.StartByte − f.Pos.Byte); the end position starts as a copy of the start position and is advanced by a loop over the grapheme clusters of exactly the token's bytes, each cluster doing either Line++, Column = 1 (for the clusters \"\\n\" and \"\\r\\n\") or Column++; f.Pos is set to the end position before the token is appended")
 	c.Rule("R2 eof: every return of hclsyntax.scanTokens is preceded by emitToken(TokenEOF, len(data), len(data))")
 	fd, pkg := c.P.LookupDecl("hclsyntax", "tokenAccum.emitToken")
@@ -530,4 +536,102 @@ func c14EOF(c *Ctx) {
 		c.Check(found, "eof", "hclsyntax.scanTokens:return", r.Pos(), "EOF token emitted at len(data)", "scanTokens can return without emitting TokenEOF at (len(data), len(data)) as its last token")
 	}
 	c.Floor("eof returns", n, 1, "the single exit of the generated scanner")
+}
+
+// R3: the accumulator cuts tokens from the buffer the scanner scans.
+func c14BufferSame(c *Ctx, rule string) {
+	c.Rule("R3 buffer.same: in hclsyntax.scanTokens the byte slice given to tokenAccum.Bytes is the very slice the state machine indexes (after the byte-order mark has been stripped), and StartByte/Pos are taken from the position that was advanced by the stripped length: token offsets produced by the machine and the bytes cut for each token refer to the same buffer")
+	fn := c.P.LookupFunc("hclsyntax", "scanTokens")
+	if fn == nil {
+		c.CheckerFail(rule, "anchor hclsyntax.scanTokens does not resolve")
+		return
+	}
+	c.Fn(FuncName(fn))
+	// the buffer the machine reads: base of the IndexAddr instructions on a []byte
+	bases := map[ssa.Value]int{}
+	for _, b := range fn.Blocks {
+		for _, ins := range b.Instrs {
+			if ia, ok := ins.(*ssa.IndexAddr); ok {
+				if sl, ok := ia.X.Type().Underlying().(*types.Slice); ok {
+					if bt, ok := sl.Elem().Underlying().(*types.Basic); ok && bt.Kind() == types.Uint8 {
+						// not the machine's own tables (package variables)
+						if ld, ok := ia.X.(*ssa.UnOp); ok {
+							if _, isGlobal := ld.X.(*ssa.Global); isGlobal {
+								continue
+							}
+						}
+						bases[cellContent(fn, ia.X)]++
+					}
+				}
+			}
+		}
+	}
+	var scanned ssa.Value
+	best := 0
+	for v, n := range bases {
+		if n > best {
+			scanned, best = v, n
+		}
+	}
+	if scanned == nil {
+		c.Undecided(rule, "hclsyntax.scanTokens:buffer", fn.Pos(), "the scanned buffer was not identified")
+		return
+	}
+	var stored ssa.Value
+	var pos token.Pos
+	for _, b := range fn.Blocks {
+		for _, ins := range b.Instrs {
+			st, ok := ins.(*ssa.Store)
+			if !ok {
+				continue
+			}
+			fa, ok := st.Addr.(*ssa.FieldAddr)
+			if !ok || !isNamed(fa.X.Type(), hclsyntaxPath, "tokenAccum") {
+				continue
+			}
+			if fv := fieldVarOf(fa.X.Type(), fa.Field); fv != nil && fv.Name() == "Bytes" {
+				stored, pos = st.Val, st.Pos()
+			}
+		}
+	}
+	// `data` lives in a cell (it is captured by the scanner's closures): compare what the cell holds
+	stored, scanned = cellContent(fn, stored), cellContent(fn, scanned)
+	c.Sites++
+	c.Check(stored != nil && (stored == scanned || sameValue(stored, scanned)), rule, "hclsyntax.scanTokens:tokenAccum.Bytes", pos, fmt.Sprintf("the buffer indexed %d times by the machine", best),
+		"tokenAccum.Bytes is not the buffer the state machine scans (e.g. the buffer before the byte-order mark was stripped): every token's Bytes and end position are cut a few bytes away from its Range")
+	// the scanned buffer is the BOM-stripped one
+	call, isCall := scanned.(*ssa.Call)
+	c.Check(isCall && call.Call.StaticCallee() != nil && call.Call.StaticCallee().Name() == "stripUTF8BOM", rule, "hclsyntax.scanTokens:bom", fn.Pos(), "the machine scans the BOM-stripped buffer", "the state machine does not scan the result of stripUTF8BOM")
+}
+
+// cellContent: if v is a load of a local cell all of whose stores are in the entry block, the value
+// the cell holds at that load (the last store before it); otherwise v itself.
+func cellContent(fn *ssa.Function, v ssa.Value) ssa.Value {
+	ld, ok := v.(*ssa.UnOp)
+	if !ok || ld.Op != token.MUL {
+		return v
+	}
+	al, ok := ld.X.(*ssa.Alloc)
+	if !ok {
+		return v
+	}
+	entry := fn.Blocks[0]
+	var last ssa.Value
+	for _, r := range *al.Referrers() {
+		if st, ok := r.(*ssa.Store); ok && st.Addr == ssa.Value(al) && st.Block() != entry {
+			return v // reassigned later: not decided here
+		}
+	}
+	for _, ins := range entry.Instrs {
+		if ins == ssa.Instruction(ld) {
+			break
+		}
+		if st, ok := ins.(*ssa.Store); ok && st.Addr == ssa.Value(al) {
+			last = st.Val
+		}
+	}
+	if last == nil {
+		return v
+	}
+	return last
 }
